@@ -113,3 +113,82 @@ def match_prefix(pattern: str, s):
         return z3.Or(z3.InRe(s, r), z3.InRe(s, z3.Concat(r, z3.Re(z3.StringVal("\n")))))
     anything = z3.Star(z3.Range(chr(0), chr(MAXCP)))
     return z3.InRe(s, z3.Concat(r, anything))
+
+
+def _char_code_cond(item, code):
+    """membership of ONE character (given by its code point) in a class / literal item, as integer arithmetic"""
+    op, av = str(item[0]), item[1]
+    if op == "LITERAL":
+        return code == av
+    if op == "NOT_LITERAL":
+        return code != av
+    if op != "IN":
+        return None
+    neg, alts = False, []
+    for o, v in av:
+        o = str(o)
+        if o == "NEGATE":
+            neg = True
+        elif o == "LITERAL":
+            alts.append(code == v)
+        elif o == "RANGE":
+            alts.append(z3.And(code >= v[0], code <= v[1]))
+        elif o == "CATEGORY" and str(v) == "CATEGORY_DIGIT":
+            alts.append(z3.And(code >= 48, code <= 57))
+        else:
+            return None
+    c = z3.Or(*alts) if alts else z3.BoolVal(False)
+    return z3.Not(c) if neg else c
+
+
+def match_prefix_parts(parts, s):
+    """re.match(PATTERN, s) is not None where PATTERN is the concatenation of `parts`:
+    ("re", text) = regular-expression source text, ("lit", term) = a z3 string term that is matched literally
+    (the caller must have shown that it contains no regex metacharacters).
+    Leading literal parts are expressed positionally (prefix + rest of the string), which string solvers handle much
+    better than a regular expression built from a symbolic string."""
+    parts = list(parts)
+    conds = []
+    cur = s
+    if parts and parts[0][0] == "re" and parts[0][1] in ("^", "\\A"):
+        parts = parts[1:]  # re.match anchors at the start anyway
+    offset = z3.IntVal(0)
+    while parts and parts[0][0] == "lit":
+        t = parts.pop(0)[1]
+        conds.append(z3.PrefixOf(t, cur))
+        offset = z3.Length(t) if z3.is_int_value(offset) and offset.as_long() == 0 else offset + z3.Length(t)
+        cur = z3.SubString(cur, z3.Length(t), z3.Length(cur) - z3.Length(t))
+    if len(parts) == 1 and parts[0][0] == "re":
+        # one single-character item (class / literal) followed by anything: say it about that one character
+        try:
+            items = [x for x in sre_parse.parse(parts[0][1]) if str(x[0]) != "AT"]
+            has_end = any(str(x[0]) == "AT" and str(x[1]) in ("AT_END", "AT_END_STRING") for x in sre_parse.parse(parts[0][1]))
+        except Exception:  # noqa
+            items, has_end = [], True
+        if len(items) == 1 and str(items[0][0]) in ("IN", "LITERAL", "NOT_LITERAL") and not has_end:
+            ch = z3.SubString(s, offset, 1)
+            code = _char_code_cond(items[0], z3.StrToCode(ch))
+            if code is not None:
+                return z3.And(*conds, z3.Length(ch) == 1, code)
+            return z3.And(*conds, z3.InRe(ch, _seq(items)))
+    res = []
+    a_end = False
+    for i, (kind, x) in enumerate(parts):
+        if kind == "lit":
+            res.append(z3.Re(x))
+            continue
+        r, a_s, a_e = to_z3(x)
+        if a_s:
+            raise Unsupported("regex anchor ^ in the middle")
+        if a_e and i != len(parts) - 1:
+            raise Unsupported("regex anchor $ in the middle")
+        a_end = a_end or a_e
+        res.append(r)
+    if not res:
+        return z3.And(*conds) if conds else z3.BoolVal(True)
+    r = res[0] if len(res) == 1 else z3.Concat(*res)
+    if a_end:
+        tail = z3.Or(z3.InRe(cur, r), z3.InRe(cur, z3.Concat(r, z3.Re(z3.StringVal("\n")))))
+    else:
+        tail = z3.InRe(cur, z3.Concat(r, z3.Star(z3.Range(chr(0), chr(MAXCP)))))
+    return z3.And(*conds, tail)
